@@ -28,6 +28,14 @@ def new_result(name):
                 samples=[], validated=0, twins=0, twins_ok=0, notes=[], error=None, wall_s=0.0, nontrivial=0)
 
 
+def _init_worker(modname, tier, seed, path):
+    for p_ in path:
+        if p_ not in sys.path:
+            sys.path.append(p_)
+    mod = importlib.import_module(modname)
+    mod.prepare(tier, seed)
+
+
 def _run_one(args):
     modname, job = args
     t0 = time.time()
@@ -111,11 +119,11 @@ def main(argv):
         results = [_run_one((modname, j)) for j in jobs]
     else:
         import concurrent.futures as cf
-        ctx = multiprocessing.get_context('fork')
+        ctx = multiprocessing.get_context('spawn')
         pending = list(jobs)
         while pending:
             batch, pending = pending, []
-            ex = cf.ProcessPoolExecutor(max_workers=nproc, mp_context=ctx)
+            ex = cf.ProcessPoolExecutor(max_workers=nproc, mp_context=ctx, initializer=_init_worker, initargs=(modname, tier, seed, list(sys.path)))
             futs = {ex.submit(_run_one, (modname, j)): j for j in batch}
             try:
                 for f in cf.as_completed(futs, timeout=job_timeout):
